@@ -1,6 +1,4 @@
-import VelaVerif.Lemmas.SrcNumericUtil
-import VelaVerif.Model.NpuAccess
-import VelaVerif.Gen.SrcRegisterCommandStreamUtil
+import VelaVerif.Lemmas.SrcNpuAccess
 /-!
 # C04 (source tie) — translated `numeric_util.round_up` / `round_up_divide` / `overlaps` equal the
 helpers of `Model/NpuAccess.lean`
@@ -47,11 +45,8 @@ theorem src_get_address_eq_model (fm : FMap) (strides : Shape3) (y x c : Int) :
     get_address (.py y) (.py x) (.py c) (.py fm.elemBytes) (.py fm.tiles.height0) (.py fm.tiles.height1)
         (.py fm.tiles.width0) (.py strides.depth) (.py strides.height) (.py strides.width)
         [.py fm.tiles.a0, .py fm.tiles.a1, .py fm.tiles.a2, .py fm.tiles.a3] fm.nhcwb16 (!fm.nhcwb16) =
-      .ok (.py (getAddress fm strides y x c)) := by
-  unfold getAddress
-  cases hl : fm.nhcwb16 <;>
-  · py_exec [get_address, pyIndex, if_pos, if_neg, List.getElem?_cons_zero, List.getElem?_cons_succ]
-    py_finish
+      .ok (.py (getAddress fm strides y x c)) :=
+  SrcNpuAccess.ga fm strides y x c
 
 /-- `get_strides(fm)`: explicit strides when `fm.strides is not None`, the layout formulas otherwise
     (`sd sh sw` stand for the attributes of `fm.strides`, which are only read when it is not `None`) -/
@@ -59,17 +54,8 @@ theorem src_get_strides_eq_model (fm : FMap) (sd sh sw : Int)
     (hs : ∀ s, fm.strides = some s → s.depth = sd ∧ s.height = sh ∧ s.width = sw) :
     get_strides (.py fm.elemBytes) (.py fm.shape.depth) (.py fm.shape.width) (.py sd) (.py sh) (.py sw)
         (!fm.nhcwb16) fm.strides.isNone =
-      .ok (.py (getStrides fm).height, .py (getStrides fm).width, .py (getStrides fm).depth) := by
-  unfold getStrides
-  have hr := SrcNumericUtil.round_up_py fm.shape.depth 16 (by decide)
-  cases hst : fm.strides with
-  | some s =>
-    obtain ⟨h1, h2, h3⟩ := hs s hst
-    subst h1 h2 h3
-    py_exec [get_strides, Option.isNone, if_pos, if_neg]
-  | none =>
-    cases hl : fm.nhcwb16 <;>
-    · py_exec [get_strides, Option.isNone, if_pos, if_neg, hr, NpuAccess.roundUp]
+      .ok (.py (getStrides fm).height, .py (getStrides fm).width, .py (getStrides fm).depth) :=
+  SrcNpuAccess.gst fm sd sh sw hs
 
 /-- `get_address_range(fm, strides, y0, x0, c0, y1, x1, c1)` = the model's `NpuAddressRange` -/
 theorem src_get_address_range_eq_model (fm : FMap) (strides : Shape3) (y0 x0 c0 y1 x1 c1 : Int) :
@@ -77,10 +63,29 @@ theorem src_get_address_range_eq_model (fm : FMap) (strides : Shape3) (y0 x0 c0 
         (.py fm.tiles.height0) (.py fm.tiles.height1) (.py fm.tiles.width0) (.py strides.depth) (.py strides.height)
         (.py strides.width) [.py fm.tiles.a0, .py fm.tiles.a1, .py fm.tiles.a2, .py fm.tiles.a3]
         fm.nhcwb16 (!fm.nhcwb16) =
-      .ok (.py (getAddressRange fm strides y0 x0 c0 y1 x1 c1).region,
-           .py (getAddressRange fm strides y0 x0 c0 y1 x1 c1).address,
-           .py (getAddressRange fm strides y0 x0 c0 y1 x1 c1).length) := by
-  unfold getAddressRange
-  py_exec [get_address_range, src_get_address_eq_model]
+      .ok (SrcNpuAccess.pyAR (getAddressRange fm strides y0 x0 c0 y1 x1 c1)) :=
+  SrcNpuAccess.gar fm strides y0 x0 c0 y1 x1 c1
+
+/-- `get_h_ranges(..)`: the list comprehension over `range(y0, y1 + 1)` yields the model's list, any length -/
+theorem src_get_h_ranges_eq_model (fm : FMap) (strides : Shape3) (y0 x0 c0 y1 x1 c1 : Int) :
+    get_h_ranges (.py y0) (.py x0) (.py c0) (.py y1) (.py x1) (.py c1) (.py fm.elemBytes) (.py fm.region)
+        (.py fm.tiles.height0) (.py fm.tiles.height1) (.py fm.tiles.width0) (.py strides.depth) (.py strides.height)
+        (.py strides.width) [.py fm.tiles.a0, .py fm.tiles.a1, .py fm.tiles.a2, .py fm.tiles.a3]
+        fm.nhcwb16 (!fm.nhcwb16) =
+      .ok ((getHRanges fm strides y0 x0 c0 y1 x1 c1).map SrcNpuAccess.pyAR) :=
+  SrcNpuAccess.ghr fm strides y0 x0 c0 y1 x1 c1
+
+/-- `get_address_ranges_for_area(fm, start, end)`: strides, clipping to the shape, the four tiles and the
+    row-wise ranges — the whole function — equals `NpuAccess.getAddressRangesForArea`, for every feature
+    map and every start / end point -/
+theorem src_get_address_ranges_for_area_eq_model (fm : FMap) (y0 x0 c0 ey ex ez sd sh sw : Int)
+    (hs : ∀ s, fm.strides = some s → s.depth = sd ∧ s.height = sh ∧ s.width = sw) :
+    get_address_ranges_for_area (.py ex) (.py ey) (.py ez) (.py fm.elemBytes) (.py fm.region) (.py fm.shape.depth)
+        (.py fm.shape.height) (.py fm.shape.width) (.py sd) (.py sh) (.py sw) (.py fm.tiles.height0)
+        (.py fm.tiles.height1) (.py fm.tiles.width0) (.py x0) (.py y0) (.py c0)
+        [.py fm.tiles.a0, .py fm.tiles.a1, .py fm.tiles.a2, .py fm.tiles.a3] fm.nhcwb16 (!fm.nhcwb16)
+        fm.strides.isNone =
+      .ok ((getAddressRangesForArea fm y0 x0 c0 ey ex ez).map SrcNpuAccess.pyAR) :=
+  SrcNpuAccess.garfa fm y0 x0 c0 ey ex ez sd sh sw hs
 
 end VelaVerif.Props.C04Src
